@@ -396,6 +396,40 @@ func c16Run(ctx *core.Ctx, tree int, dotu bool) core.Result {
 			res.Sig(fmt.Sprintf("dotdot|%d|%v|%d", tree, dotu, len(cse.names)))
 		}
 	}
+	// "." and ".." exist in directories only: after a file (a named pipe, a link to a file) they name nothing — the host
+	// says ENOTDIR — so the walk ends before them
+	{
+		n := 0
+		for _, nd := range nodes {
+			if nd.kind == "dir" || nd.rel == "" || n >= 8 {
+				continue
+			}
+			fi, err := os.Stat(filepath.Join(e.root, nd.rel)) // follows a final link
+			if err == nil && fi.IsDir() {
+				continue
+			}
+			comps := split(nd.rel)
+			if len(comps) > 12 {
+				continue
+			}
+			n++
+			for _, tail := range [][]string{{"."}, {".."}, {".", "."}, {"..", comps[0]}} {
+				names := append(append([]string{}, comps...), tail...)
+				if _, lerr := os.Lstat(e.root + "/" + strings.Join(names, "/")); lerr == nil {
+					continue
+				}
+				w := rr.rpc(&wire.Msg{Type: wire.Twalk, Fid: 0, Newfid: 13, Wname: names})
+				res.Evals++
+				if w != nil && w.Type == wire.Rwalk && len(w.Wqid) > len(comps) {
+					fail("dot-after-non-directory;"+nd.kind, fmt.Sprintf("walk %q: %d qids, although %q is a %s and has no %q in it (Lstat of the path: not a directory)", names, len(w.Wqid), short(nd.rel), nd.kind, tail[0]))
+				}
+				if w != nil && w.Type == wire.Rwalk && len(w.Wqid) == len(names) {
+					rr.rpc(&wire.Msg{Type: wire.Tclunk, Fid: 13})
+				}
+			}
+			res.Sig(fmt.Sprintf("dot-after-file|%d|%v|%s", tree, dotu, nd.kind))
+		}
+	}
 	// paths that lead THROUGH a symbolic link to a directory (the host resolves them; so must a walk)
 	var through []node
 	for _, ln := range nodes {
